@@ -346,3 +346,5 @@ def run(ctx):
     r7_char_comparisons(ctx)
     from . import c02
     c02.r5_label_names_injective(ctx, "C09.R8")
+    from . import c13
+    c13.r3_default_types(ctx, "C09.R9")
